@@ -503,6 +503,10 @@ def gen_term(r, case, sp_text=None):
     if r.random() < 0.5:
         a_text = '-' + a_text
     free_sp = sp_text is None
+    if sp_text is None and r.random() < 0.1:
+        # singular points that are small integers (SymPy's pattern matcher then returns Integers where the solver returns
+        # Floats: the two must still be recognised as the same point)
+        sp_text = r.choice(['1', '-1', '2', '10', '-40', '3'])
     if sp_text is None:
         sp_text = dec(Decimal(r.randint(-9000, 6000)) / (100 if r.random() < 0.8 else 1000))
     a_dec, sp_dec = Decimal(a_text), Decimal(sp_text)
